@@ -19,6 +19,8 @@ from vlib import coq_z, coq_list
 
 PID = "C02"
 FINDING = "C02-reopen-walphase"
+FINDING_MS = "C02-mergeself-mintime-order"
+VARIANTS = [(False, 0), (True, 0), (False, 1), (False, 2), (True, 1), (True, 2)]  # (wal replay current, merge-self mode)
 
 
 # ---------------------------------------------------------------------------------------------------------------
@@ -186,11 +188,36 @@ def wal_signature(h):
     return None
 
 
+def ms_signature(h):
+    """index of the first merge-self op (MS that really merged out-of-order files) in whose group a NEWER file (higher
+    sequence) starts, for some series, no later than an OLDER file of the group (the heap gives equal minimum times no
+    defined order) while their time ranges for
+    that series overlap - the only situation in which ordering the members by minimum time instead of by sequence
+    (chunk_iterators.go Less, used by MergeSelf.Merge) can let the older value win. Else None."""
+    prev = []
+    for i, o in enumerate(h["ops"]):
+        files = o["files"] or []
+        if o["k"] == "MS":
+            g, gone = groups_of(seqs(prev, False), seqs(files, False))
+            byseq = {f["seq"]: f for f in prev if not f["order"]}
+            for grp in g:
+                for ai in range(len(grp)):
+                    for bi in range(ai + 1, len(grp)):
+                        a, b = byseq[grp[ai]], byseq[grp[bi]]  # a older, b newer
+                        ra = {x["s"]: x for x in (a["series"] or [])}
+                        for xb in (b["series"] or []):
+                            xa = ra.get(xb["s"])
+                            if xa and xb["min"] <= xa["min"] and xb["max"] >= xa["min"]:
+                                return i
+        prev = files
+    return None
+
+
 # ---------------------------------------------------------------------------------------------------------------
 
 def eval_model(ck, hs, ok):
-    """returns {variant: {case index: (op index, code)}} ; variant in ('repaired','current')"""
-    res = {"repaired": {}, "current": {}}
+    """returns {variant: {case index: (op index, code)}} ; variant in VARIANTS"""
+    res = {v: {} for v in VARIANTS}
     if not ok:
         return None
     shard = 20
@@ -205,13 +232,13 @@ def eval_model(ck, hs, ok):
         txt = ("From Coq Require Import ZArith List Bool. From OG Require Import C02.Model C02.Corr.\n"
                "Import ListNotations. Open Scope Z_scope.\n"
                "Definition cases : list (nat * list (op * obs)) := [\n%s\n].\n"
-               "Definition MR := Eval vm_compute in mismatches false cases.\nPrint MR.\n"
-               "Definition MC := Eval vm_compute in mismatches true cases.\nPrint MC.\n") % ";\n".join(cases)
+               + "".join("Definition M%d%d := Eval vm_compute in mismatches %s %d cases.\nPrint M%d%d.\n" % (int(w), m, "true" if w else "false", m, int(w), m)
+                         for (w, m) in VARIANTS)) % ";\n".join(cases)
         files.append(("c02cases%d" % (a // shard), txt))
         maps.append((a, idxmaps))
     outs = ck.coq_eval_many(files, timeout=600)
     for (a, idxmaps), (rc, o) in zip(maps, outs):
-        for name, key in (("MR", "repaired"), ("MC", "current")):
+        for name, key in [("M%d%d" % (int(w), m), (w, m)) for (w, m) in VARIANTS]:
             m = re.search(name + r"\s*=\s*(.*?)\s*:\s*list", o, re.S)
             if rc != 0 or not m:
                 ck.broken.append("C02 model evaluation failed on shard starting at case %d: %s" % (a, o[-600:]))
@@ -281,36 +308,54 @@ def main(ck):
 
     # ---- verdicts
     finding = ck.match_finding(FINDING)
-    known, viol, stale = 0, 0, True
-    sig_cases = 0
+    finding_ms = ck.match_finding(FINDING_MS)
+    viol = 0
+    sig_cases, ms_cases = 0, 0
+    reproduced = set()
     for idx, h in enumerate(hs):
         sig = wal_signature(h)
-        if sig is not None:
-            sig_cases += 1
+        msig = ms_signature(h)
+        sig_cases += sig is not None
+        ms_cases += msig is not None
         fails = h.get("oracle") or []
         if not fails:
             continue
         first = min(f["op"] for f in fails)
-        explained = (sig is not None and first >= sig and res is not None and idx not in res["current"])
-        if explained and finding is not None:
-            known += 1
-            stale = False
-            ck.known_finding(FINDING, "after a clean close/reopen a read returns an older acknowledged value than the last write "
-                             "(write-ahead log replayed out of acknowledgement order)")
-            ck.cov.setdefault("known_finding_cases", []).append({"history": h["case"], "reopen_op": sig, "wal_partitions": h["nwal"]})
+        explained = None
+        if res is not None:
+            for (wc, mc) in VARIANTS[1:]:
+                if idx in res[(wc, mc)]:
+                    continue  # this variant does not reproduce the implementation's reads / layout
+                if (wc and (sig is None or finding is None)) or (mc and (msig is None or finding_ms is None)):
+                    continue  # outside the signature, or the finding is not open
+                start = min([x for x, on in ((sig, wc), (msig, mc)) if on])
+                if first >= start:
+                    explained = (wc, mc)
+                    break
+        if explained:
+            if explained[0]:
+                reproduced.add(FINDING)
+                ck.known_finding(FINDING, "after a clean close/reopen a read returns an older acknowledged value than the last write "
+                                 "(write-ahead log replayed out of acknowledgement order)")
+            if explained[1]:
+                reproduced.add(FINDING_MS)
+                ck.known_finding(FINDING_MS, "after merge-self of out-of-order files a read returns an older acknowledged value "
+                                 "(members folded in minimum-time order instead of sequence order)")
+            ck.cov.setdefault("known_finding_cases", []).append({"history": h["case"], "wal_replay": explained[0], "merge_self": explained[1],
+                                                                  "reopen_op": sig, "merge_self_op": msig, "wal_partitions": h["nwal"]})
         else:
             viol += 1
             if viol <= 3:
                 slim = dict(h)
                 slim["ops"] = [{k: v for k, v in o.items() if k in ("k", "rows", "level")} for o in h["ops"]]
                 ck.violation({"kind": "direct-oracle", "what": fails[0]["what"], "first_failure": fails[0], "failures": len(fails),
-                              "history": slim, "wal_signature_op": sig,
-                              "model": {k: (res[k].get(idx) if res else None) for k in ("repaired", "current")}})
+                              "history": slim, "wal_signature_op": sig, "merge_self_signature_op": msig,
+                              "model": {"%s/%s" % v: (res[v].get(idx) if res else None) for v in VARIANTS}})
     if res is not None:
         for idx, h in enumerate(hs):
             if h.get("oracle") or h.get("crash"):
                 continue
-            mm = res["repaired"].get(idx)
+            mm = res[(False, 0)].get(idx)
             if mm is not None:
                 opi, code = mm
                 ck.broken.append("correspondence C02 model/implementation: history %d op %d (%s): %s" % (
@@ -323,8 +368,9 @@ def main(ck):
                                                        "found every read correct"}
                 if len(ck.broken) > 6:
                     break
-    if finding is not None and stale and sig_cases > 0:
-        ck.notes.append("open finding %s did not reproduce on %d eligible histories: stale (tree looks repaired)" % (FINDING, sig_cases))
+    for fid, fobj, n in ((FINDING, finding, sig_cases), (FINDING_MS, finding_ms, ms_cases)):
+        if fobj is not None and fid not in reproduced and n > 0:
+            ck.notes.append("open finding %s did not reproduce on %d eligible histories: stale (tree looks repaired)" % (fid, n))
 
     # ---- coverage
     hist, flags = {}, {}
@@ -350,7 +396,8 @@ def main(ck):
     ck.cov["op_histogram"] = hist
     ck.cov["history_flags"] = flags
     ck.cov["wal_signature_histories"] = sig_cases
-    ck.cov["traces_validated_against_impl"] = (len(hs) - len(res["repaired"])) if res else 0
-    ck.cov["model_mismatch_repaired"] = len(res["repaired"]) if res else None
-    ck.cov["model_mismatch_current"] = len(res["current"]) if res else None
+    ck.cov["merge_self_signature_histories"] = ms_cases
+    best = [min((len(res[v]) for v in VARIANTS)) if res else None]
+    ck.cov["traces_validated_against_impl"] = (len(hs) - len(set.intersection(*[set(res[v]) for v in VARIANTS]))) if res else 0
+    ck.cov["model_mismatch_by_variant(wal_current/mergeself_current)"] = {"%s/%s" % v: len(res[v]) for v in VARIANTS} if res else None
     ck.cov["samples"] = [[(o["k"], o.get("rows")) for o in h["ops"]][:6] for h in hs[:2]]
